@@ -9,6 +9,8 @@ Per case every ordered pair and every ordered triple of systems is exercised at 
 """
 from __future__ import annotations
 
+from vp import guard as _guard
+
 import itertools
 import signal
 import traceback
@@ -400,8 +402,8 @@ def _show(v: Any) -> Any:
 
 
 def judge(case: dict[str, Any]) -> list[tuple[str, str]]:
-    signal.signal(signal.SIGALRM, _alarm)
-    signal.alarm(HANG_S)
+    _guard.install(_alarm)
+    _guard.arm(HANG_S)
     try:
         return _judge(case)
     except _Hang:
